@@ -313,6 +313,14 @@ func runSpecial(o *hx.Out, k int, r *prng.R, inv string) {
 	onChain := map[util.Uint256]bool{}
 	o.Line(c.admitLine(rec, onChain, pi, len(raw)), verdict)
 	needLine(o, w, decoded, verdict)
+	// the price of the native `verify` calls, derived by the model from the native method table and the opcode prices
+	for i, a := range c.accts {
+		if a.native != "" {
+			name := map[string]string{"notary": "Notary", "oracle": "OracleContract"}[a.native]
+			o.Line(fmt.Sprintf("nprice %d %s", s.pol.base, name), fmt.Sprintf("%d", c.nativeCost[i]))
+			o.Count("special:nprice:" + name)
+		}
+	}
 
 	accepted := verdict == "ok"
 	switch expect {
